@@ -15,7 +15,7 @@ impl Prop for C01 {
     type Case = History;
     const ID: &'static str = "C01";
     fn rule() -> &'static str {
-        "random histories (constructor + up to 40/120 operations with symbolic, state-resolved arguments; ~15% deliberately invalid) on TooDee<u32|Tr|Zs|u128|3-byte struct>, compared with a rows-of-cells model after every step. Non-trivial = successful structural operations on both axes, or the array shrinks to (0,0) and regrows, or a rejected call is followed by further steps, or a drain is dropped partially consumed. Distinct = distinct serialised history."
+        "random histories (constructor + up to 40/120 operations with symbolic, state-resolved arguments; ~15% deliberately invalid) on TooDee<u32|Tr|Zs|u128|3-byte struct>, compared with a rows-of-cells model after every step. Non-trivial = successful structural operations on both axes, or the array shrinks to (0,0) and regrows, or a rejected call is followed by further steps, or a drain is dropped partially consumed. Distinct = distinct serialised history. Also: structural histories on giant arrays of () with ~usize::MAX cells (model = (cols, rows); a growth that cannot fit in usize must panic and leave a valid array), element types W40 (40 bytes) and Nd (no drop glue)."
     }
     fn strategy(tier: Tier) -> BoxedStrategy<History> {
         let n = if tier == Tier::Quick { 40 } else { 120 };
